@@ -1,0 +1,11 @@
+//go:build verif
+
+package msgstorage
+
+// VerifPendingLen returns the number of entries waiting in the add/update/del
+// maps plus the confirms waiting to be relayed (verification snapshot).
+func (storage *MsgStorage) VerifPendingLen() int {
+	storage.persistLock.Lock()
+	defer storage.persistLock.Unlock()
+	return len(storage.add) + len(storage.update) + len(storage.del) + len(storage.confirmSyncCh)
+}
